@@ -5,6 +5,7 @@ import (
 	"encoding/json"
 	"errors"
 	"fmt"
+	"sync/atomic"
 	"unicode/utf8"
 
 	"github.com/matrix-org/gomatrixserverlib/spec"
@@ -17,6 +18,9 @@ type eventV2 struct {
 	eventV1
 	PrevEvents []string `json:"prev_events"`
 	AuthEvents []string `json:"auth_events"`
+	// eventID caches the lazily computed event ID. It is shared by the copies of an event
+	// (unsigned data and signatures do not change the ID) and safe for concurrent use.
+	eventID *atomic.Pointer[string]
 }
 
 func (e *eventV2) PrevEventIDs() []string {
@@ -64,15 +68,24 @@ func (e *eventV2) SenderID() spec.SenderID {
 }
 
 func (e *eventV2) EventID() string {
-	// if we already generated the eventID, don't do it again
+	// the event ID was supplied when the event was loaded
 	if e.EventIDRaw != "" {
 		return e.EventIDRaw
+	}
+	// if we already generated the eventID, don't do it again. Accessors may be called from
+	// several goroutines at once, so the event itself is not written to.
+	if e.eventID != nil {
+		if id := e.eventID.Load(); id != nil {
+			return *id
+		}
 	}
 	ref, err := referenceOfEvent(e.eventJSON, e.roomVersion)
 	if err != nil {
 		panic(fmt.Errorf("failed to generate reference of event: %w", err))
 	}
-	e.EventIDRaw = ref.EventID
+	if e.eventID != nil {
+		e.eventID.Store(&ref.EventID)
+	}
 	return ref.EventID
 }
 
@@ -127,7 +140,7 @@ func newEventFromUntrustedJSONV2(eventJSON []byte, roomVersion IRoomVersion) (PD
 		return nil, BadJSONError{err}
 	}
 
-	res := &eventV2{}
+	res := &eventV2{eventID: new(atomic.Pointer[string])}
 	var err error
 	// Synapse removes these keys from events in case a server accidentally added them.
 	// https://github.com/matrix-org/synapse/blob/v0.18.5/synapse/crypto/event_signing.py#L57-L62
@@ -265,7 +278,7 @@ func CheckFields(input PDU) error { // nolint: gocyclo
 }
 
 func newEventFromTrustedJSONV2(eventJSON []byte, redacted bool, roomVersion IRoomVersion) (PDU, error) {
-	res := eventV2{}
+	res := eventV2{eventID: new(atomic.Pointer[string])}
 	if err := json.Unmarshal(eventJSON, &res); err != nil {
 		return nil, err
 	}
